@@ -623,10 +623,34 @@ pub fn supervise(
     let mut crashed = vec![];
     let mut remaining = nw;
     let mut kill_all = false;
+    // per-case watchdog: a worker whose in-flight slot has not been rewritten for `stall_s` seconds is
+    // stuck in one case (a hang of the code under test, or a machine under extreme load)
+    let stall_s: u64 = std::env::var("VERIF_STALL_S").ok().and_then(|s| s.parse().ok()).unwrap_or(420);
+    let mut last_seen: Vec<(Option<std::time::SystemTime>, Instant)> = vec![(None, Instant::now()); nw];
+    let mut last_poll = Instant::now();
     while remaining > 0 {
         let mut progressed = false;
+        let poll_stall = last_poll.elapsed().as_secs() >= 2;
+        if poll_stall {
+            last_poll = Instant::now();
+        }
         for (w, slot) in children.iter_mut() {
             let Some(child) = slot else { continue };
+            if poll_stall && !kill_all {
+                let mt = std::fs::metadata(outdir.join(format!("w{w}.inflight"))).and_then(|m| m.modified()).ok();
+                if mt != last_seen[*w].0 {
+                    last_seen[*w] = (mt, Instant::now());
+                } else if last_seen[*w].1.elapsed().as_secs() > stall_s {
+                    let _ = child.kill();
+                    let _ = child.wait();
+                    let infl = read_inflight(&outdir.join(format!("w{w}.inflight")));
+                    crashed.push((*w, "stalled".into(), infl));
+                    *slot = None;
+                    remaining -= 1;
+                    progressed = true;
+                    continue;
+                }
+            }
             if kill_all {
                 let _ = child.kill();
                 let _ = child.wait();
